@@ -696,6 +696,10 @@ func (e *specEnv) evalCall(s *SpecExpr) (Term, types.Type) {
 		case "zero":
 			t := x.resolveType(e.pkg, specTypeText(args[0]))
 			return x.zero(t), t
+		case "iszero":
+			// iszero(e): e is the zero value of its own static type
+			v, t := e.eval(args[0])
+			return eq(v, x.zero(x.substDeep(t))), boolT
 		case "render":
 			t, _ := e.eval(args[0])
 			d, dt := e.eval(args[1])
@@ -773,6 +777,40 @@ func (e *specEnv) evalCall(s *SpecExpr) (Term, types.Type) {
 			return x.ghostDefault(e.st, "lasterr:"+args[0].Val), types.Universe.Lookup("error").Type() // never called: not nil
 		case "exited":
 			return e.ghostBool("exited"), boolT
+		case "applied":
+			// applied(): number of calls through function values made so far on this path
+			if v, ok := e.st.ghost["invocations"]; ok {
+				return v, intT
+			}
+			return intLit(0), intT
+		case "lastfn", "lastarg", "lastres":
+			k := fn.Name
+			if fn.Name != "lastfn" {
+				if args[0].Kind != "int" {
+					e.fail("%s() needs an integer literal", fn.Name)
+				}
+				k = fn.Name + ":" + args[0].Val
+			}
+			v, ok := e.st.ghost[k]
+			if !ok {
+				// no call through a function value on this path: an unknown value (of the type of the
+				// corresponding result of the function under contract, for lastres)
+				if fn.Name == "lastres" {
+					var i int
+					fmt.Sscanf(args[0].Val, "%d", &i)
+					if rs := x.fn.Sig.Results(); i < rs.Len() {
+						t := x.substDeep(rs.At(i).Type())
+						return x.ctx.Fresh("nolastres", x.sortOf(t)), t
+					}
+				}
+				e.fail("%s: no call through a function value on this path", k)
+			}
+			return v, x.applyTypes[k]
+		case "locked":
+			// locked(p.f): the executing goroutine holds lock field f of *p (write lock, or at least one read lock)
+			key, obj := e.lockKey(args[0])
+			w, r := x.lockArrays(e.st, key)
+			return or(sel(w, obj), mk(SBool, ">", sel(r, obj), intLit(0))), boolT
 		}
 		// let-bound abbreviations with no arguments are idents; defines with parameters:
 		if d := x.w.lookupDefine(e.pkg.PkgPath, fn.Name); d != nil {
@@ -1179,4 +1217,23 @@ func (e *specEnv) fieldwiseParts(kind string, src, dest *SpecExpr) []fieldPart {
 		e.fail("fieldwise(%s): no field of that kind", kind)
 	}
 	return parts
+}
+
+// lockKey resolves a spec expression base.field naming a lock to the ghost key and the object.
+func (e *specEnv) lockKey(a *SpecExpr) (string, Term) {
+	x := e.x
+	if a.Kind != "field" {
+		e.fail("locked() needs an expression p.lockField")
+	}
+	base, bt := e.eval(a.Args[0])
+	p, ok := x.subst(types.Unalias(bt)).Underlying().(*types.Pointer)
+	if !ok {
+		e.fail("locked(): %s is not a pointer", a.Args[0].String())
+	}
+	si := x.structOf(p.Elem())
+	_, f := si.field(a.Name)
+	if f == nil {
+		e.fail("locked(): no field %s", a.Name)
+	}
+	return fieldHeapName(si, f), base
 }
